@@ -775,6 +775,7 @@ static bool upipe_h265f_activate_sps(struct upipe *upipe, uint32_t sps_id)
     struct ubuf_block_stream *s = &f.s;
     if (!ubase_check(ubuf_block_stream_init(s, upipe_h265f->sps[sps_id], 2))) {
         upipe_throw_fatal(upipe, UBASE_ERR_ALLOC);
+        uref_free(flow_def);
         return false;
     }
 
@@ -786,6 +787,7 @@ static bool upipe_h265f_activate_sps(struct upipe *upipe, uint32_t sps_id)
 
     if (!upipe_h265f_activate_vps(upipe, vps_id)) {
         ubuf_block_stream_clean(s);
+        uref_free(flow_def);
         return false;
     }
 
@@ -878,6 +880,7 @@ static bool upipe_h265f_activate_sps(struct upipe *upipe, uint32_t sps_id)
         upipe_err_va(upipe, "invalid SPS (bit_depth_luma %"PRIu32")",
                      luma_depth);
         ubuf_block_stream_clean(s);
+        uref_free(flow_def);
         return false;
     }
 
@@ -886,6 +889,7 @@ static bool upipe_h265f_activate_sps(struct upipe *upipe, uint32_t sps_id)
         upipe_err_va(upipe, "invalid SPS (bit_depth_chroma %"PRIu32")",
                      chroma_depth);
         ubuf_block_stream_clean(s);
+        uref_free(flow_def);
         return false;
     }
 
@@ -927,6 +931,7 @@ static bool upipe_h265f_activate_sps(struct upipe *upipe, uint32_t sps_id)
                 upipe_err_va(upipe, "invalid chroma format %"PRIu32,
                              chroma_idc);
                 ubuf_block_stream_clean(s);
+                uref_free(flow_def);
                 return false;
         }
         uint8_t msize = (chroma_depth + 7) / 8;
@@ -946,6 +951,7 @@ static bool upipe_h265f_activate_sps(struct upipe *upipe, uint32_t sps_id)
         upipe_err_va(upipe, "invalid SPS (max_pic_order_cnt %"PRIu32")",
                      log2_max_pic_order_cnt);
         ubuf_block_stream_clean(s);
+        uref_free(flow_def);
         return false;
     }
 
@@ -996,6 +1002,7 @@ static bool upipe_h265f_activate_sps(struct upipe *upipe, uint32_t sps_id)
     if (num_short_term_ref_pic_sets > 64) {
         upipe_err(upipe, "invalid SPS (num_short_term_ref_pic_sets)");
         ubuf_block_stream_clean(s);
+        uref_free(flow_def);
         return false;
     }
 
@@ -1010,6 +1017,7 @@ static bool upipe_h265f_activate_sps(struct upipe *upipe, uint32_t sps_id)
                 delta_poc, used_by_curr_pic)) {
             upipe_err(upipe, "invalid SPS (short_term_ref_pic_sets)");
             ubuf_block_stream_clean(s);
+            uref_free(flow_def);
             return false;
         }
     }
@@ -1152,6 +1160,7 @@ static bool upipe_h265f_activate_sps(struct upipe *upipe, uint32_t sps_id)
                 if (!ubase_check(upipe_h265f_stream_parse_hrd(upipe, s,
                                  &octet_rate, &cpb_size))) {
                     ubuf_block_stream_clean(s);
+                    uref_free(flow_def);
                     return false;
                 }
             }
